@@ -50,6 +50,7 @@ func main() {
 		os.Exit(1)
 	}
 	var sites []site
+	seenGlobal := map[string]bool{}
 	for _, p := range pkgs {
 		if len(p.Errors) > 0 {
 			fmt.Println("package errors:", p.PkgPath, p.Errors[0])
@@ -81,6 +82,21 @@ func main() {
 							sites = append(sites, site{fname, curFunc, "maprange", xs.String(), fmt.Sprintf("%x", sha256.Sum256([]byte(body)))[:12], p.Fset.Position(x.Pos()).Line})
 						}
 					}
+				case *ast.Ident:
+					// package-level variables of the scanned packages that function bodies use: state that
+					// survives a compilation (caches, counters, registries)
+					if curFunc != "" {
+						if v, ok := p.TypesInfo.Uses[x].(*types.Var); ok && !v.IsField() && v.Pkg() != nil && v.Parent() == v.Pkg().Scope() && strings.HasPrefix(v.Pkg().Path(), "github.com/consensys/gnark") {
+							key := fname + "|" + v.Pkg().Path() + "." + v.Name()
+							ts := types.TypeString(v.Type(), func(p *types.Package) string { return p.Name() })
+							// only state that can change after initialisation: maps, slices, pointers, sync primitives
+							mutable := strings.HasPrefix(ts, "map[") || strings.HasPrefix(ts, "[]") || strings.HasPrefix(ts, "*") || strings.HasPrefix(ts, "sync.") || strings.Contains(ts, "Pool") || strings.HasPrefix(ts, "atomic.") || ts == "int" || ts == "uint64" || ts == "bool"
+							if mutable && !seenGlobal[key] {
+								seenGlobal[key] = true
+								sites = append(sites, site{fname, "", "global", strings.TrimPrefix(v.Pkg().Path(), "github.com/consensys/gnark/") + "." + v.Name(), ts, 0})
+							}
+						}
+					}
 				case *ast.GoStmt:
 					sites = append(sites, site{fname, curFunc, "go", "", "", p.Fset.Position(x.Pos()).Line})
 				case *ast.SelectStmt:
@@ -103,7 +119,10 @@ func main() {
 		if sites[i].File != sites[j].File {
 			return sites[i].File < sites[j].File
 		}
-		return sites[i].Line < sites[j].Line
+		if sites[i].Line != sites[j].Line {
+			return sites[i].Line < sites[j].Line
+		}
+		return sites[i].Detail < sites[j].Detail
 	})
 	var sb strings.Builder
 	sb.WriteString("(* generated by tools/xlate nondet from the current source: do not edit *)\nFrom Coq Require Import List String.\nFrom GnarkV Require Import Det.Sites.\nImport ListNotations.\nLocal Open Scope string_scope.\n")
